@@ -2,19 +2,38 @@
 import c01
 
 MANIFEST = {
-    "text": "Theorems C02_conservation (pushed = popped ++ queued as lists, for both queues) and C02_no_stranded (when every sender, "
+    "text": "Actor level: C02_kernel_conservation — for every role table, run and message serial of the kernel model, sends = handled + "
+            "dead letters + still pending (nothing invented, nothing lost, across failure, restart, suspension, termination, address reuse), "
+            "C02_send_total (sending never blocks/crashes); kernel tied to the real ActorSystem by lockstep replay with exactly-once / "
+            "order monitors. Mailbox level: theorems C02_conservation (pushed = popped ++ queued as lists, for both queues) and C02_no_stranded (when every sender, "
             "resumer, suspender and runner has finished, the system queue is empty and so is the user queue unless suspended: no lost "
             "wake-up) hold in every reachable state of the mailbox machine for any number of threads; tied to both mailbox files by "
             "per-step replay of instrumented schedules (same tie as C01), with monitors for stranded, lost, duplicated and reordered messages.",
-    "note": "Mailbox level only so far (actor-level dead letters come with the kernel model). Liveness is the safety statement "
+    "note": "Uniqueness of a send per (serial, receiver) is checked per run, not proved. Liveness is the safety statement "
             "'quiescent => empty' plus assumed scheduler fairness. Same trusted base as C01.",
     "technique": "Coq proof (counter + poised-thread invariants, no-lost-wake-up) + per-step schedule replay of the instrumented source in Coq",
 }
 
 
 def check(ctx):
-    return c01.check(ctx, prop_dir="C02", props="C02/Properties.v",
-                     kinds=("mailbox:stranded", "mailbox:lost", "mailbox:duplicate", "mailbox:order"), design="DESIGN.md §6 C02")
+    import vlib
+    import kernel_common as K
+    ctx.trusted += c01.TRUSTED + K.TRUSTED
+    bad = vlib.forbidden_scan(["Lib", "C01", "C02", "Kernel"])
+    if bad:
+        ctx.proof_errors.append("forbidden constructs: %s" % bad[:5])
+    if vlib.coq_make(ctx, ["Lib", "C01", "Kernel", "C02"]):
+        vlib.coq_properties(ctx, "C02/Properties.v")
+    # mailbox level: per-step replay of instrumented schedules (tie T2)
+    b = vlib.t2_build(ctx, "mbox", "mailbox", c01.MBOX_SOURCES, "mailbox")
+    vlib.run_harness(ctx, b, "mbox", kinds=["mailbox:stranded", "mailbox:lost", "mailbox:duplicate", "mailbox:order"])
+    # actor level: lockstep replay of the real actor system against the kernel model (tie T1)
+    k = vlib.go_build(ctx, "klock")
+    vlib.run_harness(ctx, k, "klock", kinds=["C02:", "kernel:"])
+    if ctx.tier == "thorough":
+        vlib.coqchk(ctx, ["MV.C02.Properties"])
+    return vlib.finish(ctx, "make -C coq && coqc C02/Properties.v (Print Assumptions); instrument+build current mailbox sources; build klock against "
+                            "/repo; coqc <schedule-replay shards> <lockstep shards> (vm_compute)", "DESIGN.md §6 C02", search=vlib.default_search)
 
 
 def replay(ctx, path):
